@@ -1,7 +1,580 @@
-//! C10 harness module (not implemented yet).
+//! C10: verifiable RSA encryption -- acceptance implies recoverability.
+//! Byte alterations of serialised proofs, context substitutions and adversarial provers (built through the wire
+//! format exactly like /verif/findings/F8_demo.rs) are run against the REAL from_bytes + verify + decrypt and against
+//! the extracted model (coq/Model/VEnc.v, served by drv_c09.ml); verdicts and decrypt results must agree.
+//! Implementation-only oracle: honest => accepted and decrypts to x; altered byte (x != 0) => rejected; foreign context
+//! => rejected; accepted => decrypt = Ok(y) with y*G = Q.
+use crate::c09::*;
+use crate::oracle::*;
 use crate::util::*;
+use curve25519_dalek::EdwardsPoint;
+use ff::{Field, PrimeField};
+use group::{Group, GroupEncoding};
+use num_bigint_dig::BigUint;
+use rand::{Rng, RngCore, SeedableRng};
+use rand_chacha::ChaCha20Rng;
+use rsa::traits::PublicKeyParts;
+use rsa::{Pkcs1v15Encrypt, RsaPublicKey};
+use sha2::{Digest, Sha256};
+use sl_verifiable_enc::VerifiableRsaEncryption;
+use std::io::Write;
+use subtle::ConditionallySelectable;
 
-pub fn run(_kv: &Args) -> i32 {
-    eprintln!("c10: not implemented");
-    2
+// ------------------------------------------------------------------------------------------------ the adversary's own codec
+#[derive(Clone)]
+struct Slot {
+    g_r: Vec<u8>,
+    enc_x_r: Vec<u8>,
+    enc_r: Vec<u8>,
+}
+#[derive(Clone)]
+struct Wire {
+    seed: [u8; 32],
+    sp: usize,
+    psize: usize,
+    enc: usize,
+    slots: Vec<Slot>,
+    scalars: Vec<Vec<u8>>,
+}
+fn parse_wire(b: &[u8]) -> Wire {
+    let u16at = |o: usize| u16::from_be_bytes([b[o], b[o + 1]]) as usize;
+    let (sp, psize, enc) = (u16at(32), u16at(34), u16at(36));
+    let mut off = 40;
+    let mut slots = vec![];
+    for _ in 0..sp {
+        let g_r = b[off..off + psize].to_vec();
+        off += psize;
+        let enc_x_r = b[off..off + enc].to_vec();
+        off += enc;
+        let enc_r = b[off..off + enc].to_vec();
+        off += enc;
+        slots.push(Slot { g_r, enc_x_r, enc_r });
+    }
+    let mut scalars = vec![];
+    for _ in 0..sp {
+        scalars.push(b[off..off + 32].to_vec());
+        off += 32;
+    }
+    assert_eq!(off, b.len());
+    Wire { seed: b[..32].try_into().unwrap(), sp, psize, enc, slots, scalars }
+}
+fn build_wire(w: &Wire) -> Vec<u8> {
+    let mut b = w.seed.to_vec();
+    for v in [w.sp, w.psize, w.enc, 32] {
+        b.extend_from_slice(&(v as u16).to_be_bytes());
+    }
+    for s in &w.slots {
+        b.extend_from_slice(&s.g_r);
+        b.extend_from_slice(&s.enc_x_r);
+        b.extend_from_slice(&s.enc_r);
+    }
+    for s in &w.scalars {
+        b.extend_from_slice(s);
+    }
+    b
+}
+/// the Fiat-Shamir challenge, computed by the adversary with sha2 directly
+fn challenge_of(q_bytes: &[u8], slots: &[Slot], label: &[u8]) -> [u8; 32] {
+    let mut h = Sha256::new();
+    h.update(b"Verified-RSA-encryption");
+    h.update(q_bytes);
+    for s in slots {
+        h.update(&s.g_r);
+        h.update(&s.enc_x_r);
+        h.update(&s.enc_r);
+    }
+    h.update(label);
+    h.finalize().into()
+}
+fn bit(ch: &[u8; 32], i: usize) -> bool {
+    (ch[i >> 3] >> (i & 7)) & 1 == 1
+}
+fn label_int(label: &[u8]) -> BigUint {
+    let mut h = Sha256::new();
+    h.update(b"SL-label-for-RSA");
+    h.update(label);
+    BigUint::from_bytes_be(&h.finalize())
+}
+/// label-bound deterministic PKCS#1 v1.5 encryption of an arbitrary plaintext integer (the adversary's tool)
+fn enc_int(m: &BigUint, label: &[u8], pk: &RsaPublicKey, seed: [u8; 32]) -> Option<Vec<u8>> {
+    let mut r = ChaCha20Rng::from_seed(seed);
+    let pt = (m * label_int(label)) % pk.n();
+    pk.encrypt(&mut r, Pkcs1v15Encrypt, &pt.to_bytes_be()).ok()
+}
+fn repr_bytes<G: Cv>(s: &G::Scalar) -> Vec<u8>
+where
+    G::Scalar: ConditionallySelectable,
+{
+    s.to_repr().as_ref().to_vec()
+}
+
+// ------------------------------------------------------------------------------------------------ evaluation of one input
+#[derive(Clone, PartialEq)]
+enum Expect {
+    /// must be accepted and decrypt to this value (hex)
+    Accept(String),
+    /// must be rejected by from_bytes or verify
+    Reject,
+    /// no expectation beyond soundness (accepted => decrypts to the discrete log of Q)
+    Any,
+}
+struct Ctx<'a, G: Cv>
+where
+    G::Scalar: ConditionallySelectable,
+{
+    q: G,
+    label: &'a [u8],
+    pk: &'a str,
+    sk: &'a str,
+}
+
+/// Run the real from_bytes + verify + decrypt (and the model when `with_model`), compare, apply the oracle.
+/// Returns (from_bytes, verify, decrypt) of the real code.
+fn eval<G: Cv>(rep: &mut Report, m: &mut Model, tag: &str, bytes: &[u8], c: &Ctx<G>, with_model: bool, expect: &Expect,
+               log: &mut std::fs::File) -> (String, String, String)
+where
+    G::Scalar: ConditionallySelectable,
+{
+    let cv = G::NAME;
+    let (fb, p) = real_from_bytes::<G>(bytes);
+    let (mut v, mut d) = ("-".to_string(), "-".to_string());
+    if let Some(p) = &p {
+        v = real_verify(p, &c.q, m.keys.pk(c.pk), c.label);
+        d = real_decrypt(p, &c.q, m.keys.sk(c.sk), c.label);
+    }
+    rep.kind(&format!("{cv}-{}", tag.split(':').next().unwrap()));
+    let qh = pt_hex(&c.q);
+    let describe = |bytes: &[u8]| {
+        format!("curve={cv} {tag} Q={qh} label={} pk={} sk={} proof_sha256={} len={}", hx(c.label), c.pk, c.sk,
+            hex::encode(Sha256::digest(bytes)), bytes.len())
+    };
+    if with_model {
+        let mfb = m.from_bytes(cv, bytes);
+        let mclass = if mfb.starts_with("V ") { "V".to_string() } else { mfb.clone() };
+        rep.cmp("from_bytes", &describe(bytes), &fb, &mclass);
+        if let (Some(_), Some(h)) = (&p, handle(&mfb)) {
+            rep.cmp("verify", &describe(bytes), &v, &m.verify(cv, &h, &qh, c.pk, c.label));
+            rep.cmp("decrypt", &describe(bytes), &d, &m.decrypt(cv, &h, &qh, c.sk, c.label));
+        }
+        m.reset();
+    } else {
+        rep.n_eval += 1;
+    }
+    rep.n_nontrivial += 1;
+    // ---- implementation-only oracle
+    let dump = |rep: &mut Report, what: &str| {
+        // the full input goes to a file next to the results (a proof is 41 KB); the ORACLE line names it
+        let name = format!("oracle_input_{}.hex", rep.oracle.len());
+        let _ = std::fs::write(format!("{}/{name}", rep_dir()), hex::encode(bytes));
+        rep.oracle.push(format!("{what}: from_bytes={fb} verify={v} decrypt=[{d}] :: {} input_file={name}", describe(bytes)));
+    };
+    if v == "V" {
+        // accepted => decrypt returns the discrete logarithm of Q
+        let ok = match d.strip_prefix("V ") {
+            Some(y) => G::generator() * sc_of_hex::<G>(y) == c.q,
+            None => false,
+        };
+        if !ok {
+            dump(rep, "accepted proof does not decrypt to the discrete log of Q");
+        }
+    }
+    match expect {
+        Expect::Accept(x) => {
+            if v != "V" || d != format!("V {x}") {
+                dump(rep, &format!("expected acceptance and decryption to {x}"));
+            }
+        }
+        Expect::Reject => {
+            if v == "V" {
+                dump(rep, "expected rejection (from_bytes or verify)");
+            }
+        }
+        Expect::Any => {}
+    }
+    if fb == "P" || v == "P" || d == "P" {
+        dump(rep, "panic on peer-supplied bytes");
+    }
+    writeln!(log, "{cv} {tag} -> from_bytes={fb} verify={v} decrypt={}", if d.len() > 12 { &d[..12] } else { &d }).unwrap();
+    (fb, v, d)
+}
+
+static REP_DIR: std::sync::OnceLock<String> = std::sync::OnceLock::new();
+fn rep_dir() -> String {
+    REP_DIR.get().cloned().unwrap_or_else(|| "/verif/build/run/C10".into())
+}
+
+// ------------------------------------------------------------------------------------------------ honest material
+struct Honest<G: Cv>
+where
+    G::Scalar: ConditionallySelectable,
+{
+    x: G::Scalar,
+    q: G,
+    label: Vec<u8>,
+    key: String,
+    seed: [u8; 32],
+    rs: Vec<G::Scalar>,
+    bytes: Vec<u8>,
+}
+fn honest<G: Cv>(seed: u64, tag: &str, keys: &Keys, key: &str, x: G::Scalar, label: &[u8], sp: Option<usize>, zeros: usize) -> Honest<G>
+where
+    G::Scalar: ConditionallySelectable,
+{
+    let base = rng(seed, &format!("c10-honest-{}-{tag}", G::NAME));
+    let n = sp.unwrap_or(128);
+    let (p, s, rs) = if zeros == 0 {
+        let mut pr = base.clone();
+        let (s, rs) = tape_of::<G, _>(&base, n);
+        (VerifiableRsaEncryption::<G>::encrypt_with_proof(&x, keys.pk(key), label, sp, &mut pr).expect("honest proof"), s, rs)
+    } else {
+        let cr = CraftedRng { inner: base, zeros };
+        let mut pr = cr.clone();
+        let (s, rs) = tape_of::<G, _>(&cr, n);
+        (VerifiableRsaEncryption::<G>::encrypt_with_proof(&x, keys.pk(key), label, sp, &mut pr).expect("honest proof"), s, rs)
+    };
+    Honest { x, q: G::generator() * x, label: label.to_vec(), key: key.to_string(), seed: s, rs, bytes: p.to_bytes() }
+}
+fn xhex<G: Cv>(x: &G::Scalar) -> String
+where
+    G::Scalar: ConditionallySelectable,
+{
+    hex_of_big(&big_of_sc::<G>(x))
+}
+/// openings re-derived from the challenge over the (possibly modified) slots, honest rule
+fn reopen<G: Cv>(w: &mut Wire, h: &Honest<G>, q_bytes: &[u8], label: &[u8]) -> [u8; 32]
+where
+    G::Scalar: ConditionallySelectable,
+{
+    let ch = challenge_of(q_bytes, &w.slots, label);
+    for i in 0..w.sp {
+        let s = if bit(&ch, i) { h.x + h.rs[i] } else { h.rs[i] };
+        w.scalars[i] = repr_bytes::<G>(&s);
+    }
+    ch
+}
+
+// ------------------------------------------------------------------------------------------------ one curve
+fn run_curve<G: Cv>(seed: u64, thorough: bool, keys: &Keys, m: &mut Model, rep: &mut Report, log: &mut std::fs::File)
+where
+    G::Scalar: ConditionallySelectable,
+{
+    let cv = G::NAME;
+    let mut r = rng(seed, &format!("c10-{cv}"));
+    let x = scalar_of_kind::<G>(6, &mut r);
+    let label = b"c10-label".to_vec();
+    let h = honest::<G>(seed, "base", keys, "a1024", x, &label, None, 0);
+    let w0 = parse_wire(&h.bytes);
+    let qb = h.q.to_bytes().as_ref().to_vec();
+    let ctx = Ctx::<G> { q: h.q, label: &label, pk: "a1024", sk: "a1024" };
+    let acc = Expect::Accept(xhex::<G>(&x));
+    let (slot_size, enc, psize) = (w0.psize + 2 * w0.enc, w0.enc, w0.psize);
+    let base_scalars = 40 + 128 * slot_size;
+    eval(rep, m, "honest", &h.bytes, &ctx, true, &acc, log);
+
+    // ---------------------------------------------------------------- 1. byte alterations, stratified over the wire fields
+    let per_field = if thorough { 0 } else { 200 };
+    let mut positions: Vec<(usize, &str)> = vec![];
+    for p in 0..32 { positions.push((p, "seed")); }
+    for p in 32..40 { positions.push((p, "sizes")); }
+    if thorough {
+        for i in 0..128 {
+            let o = 40 + i * slot_size;
+            for p in o..o + psize { positions.push((p, "commitment")); }
+            for p in o + psize..o + psize + enc { positions.push((p, "enc_x_r")); }
+            for p in o + psize + enc..o + slot_size { positions.push((p, "enc_r")); }
+        }
+        for p in base_scalars..h.bytes.len() { positions.push((p, "open_scalar")); }
+    } else {
+        for _ in 0..per_field {
+            let i = (r.next_u32() % 128) as usize;
+            let o = 40 + i * slot_size;
+            positions.push((o + (r.next_u32() as usize % psize), "commitment"));
+            positions.push((o + psize + (r.next_u32() as usize % enc), "enc_x_r"));
+            positions.push((o + psize + enc + (r.next_u32() as usize % enc), "enc_r"));
+            positions.push((base_scalars + (r.next_u32() as usize % (128 * 32)), "open_scalar"));
+        }
+    }
+    // which of them also go through the model (model evaluation is slower)
+    let mut budget: std::collections::BTreeMap<&str, usize> = Default::default();
+    let quota = |f: &str| -> usize {
+        let (q, t) = match f { "seed" => (4, 8), "sizes" => (8, 8), "open_scalar" => (8, 40), _ => (5, 30) };
+        if thorough { t } else { q }
+    };
+    let stride = |f: &str, n: usize| -> usize { std::cmp::max(1, n / quota(f)) };
+    let mut count_by_field: std::collections::BTreeMap<&str, usize> = Default::default();
+    for (_, f) in &positions { *count_by_field.entry(f).or_default() += 1; }
+    let mut seen_by_field: std::collections::BTreeMap<&str, usize> = Default::default();
+    let mut real_only: Vec<(usize, &str, u8)> = vec![];
+    for (pos, field) in &positions {
+        let field: &str = *field;
+        let k = { let e = seen_by_field.entry(field).or_default(); *e += 1; *e - 1 };
+        let to_model = k % stride(field, count_by_field[field]) == 0 && *budget.entry(field).or_default() < quota(field);
+        let old = h.bytes[*pos];
+        let mut rnd = (r.next_u32() & 0xff) as u8;
+        if rnd == old || rnd == old.wrapping_add(1) { rnd = old.wrapping_add(2 + (rnd & 0x3f)); }
+        for (j, newb) in [old.wrapping_add(1), rnd].into_iter().enumerate() {
+            if to_model && j == (k / stride(field, count_by_field[field])) % 2 {
+                *budget.get_mut(field).unwrap() += 1;
+                let mut b = h.bytes.clone();
+                b[*pos] = newb;
+                eval(rep, m, &format!("alter-{field}:pos={pos}:{old:02x}->{newb:02x}"), &b, &ctx, true, &Expect::Reject, log);
+            } else {
+                real_only.push((*pos, field, newb));
+            }
+        }
+    }
+    // the bulk runs against the real code only, in parallel
+    let nthreads = std::thread::available_parallelism().map(|n| n.get()).unwrap_or(4).min(16);
+    let chunks: Vec<&[(usize, &str, u8)]> = real_only.chunks(((real_only.len() + nthreads - 1) / nthreads.max(1)).max(1)).collect();
+    let results: Vec<Vec<(usize, String, u8, String, String, String)>> = std::thread::scope(|sc| {
+        let hs: Vec<_> = chunks.iter().map(|ch| {
+            let (bytes, q, label) = (&h.bytes, &h.q, &label);
+            sc.spawn(move || {
+                let mut out = vec![];
+                let mut b = bytes.clone();
+                for (pos, field, newb) in ch.iter() {
+                    let old = b[*pos];
+                    b[*pos] = *newb;
+                    let (fb, p) = real_from_bytes::<G>(&b);
+                    let (mut v, mut d) = ("-".to_string(), "-".to_string());
+                    if let Some(p) = &p {
+                        v = real_verify(p, q, keys.pk("a1024"), label);
+                        if v == "V" || fb == "P" {
+                            d = real_decrypt(p, q, keys.sk("a1024"), label);
+                        }
+                    }
+                    b[*pos] = old;
+                    if v == "V" || v == "P" || fb == "P" {
+                        out.push((*pos, field.to_string(), *newb, fb, v, d));
+                    }
+                }
+                (ch.len(), out)
+            })
+        }).collect();
+        hs.into_iter().map(|h| { let (n, o) = h.join().unwrap(); rep.n_eval += n as u64; rep.n_nontrivial += n as u64; o }).collect()
+    });
+    for (_, f, _) in &real_only { rep.kind(&format!("{cv}-alter-{f}")); }
+    for (pos, field, newb, fb, v, d) in results.into_iter().flatten() {
+        rep.oracle.push(format!("altered byte accepted or panicked: curve={cv} field={field} pos={pos} new={newb:02x} from_bytes={fb} verify={v} decrypt=[{d}] :: \
+            base proof = honest(seed={seed}, stream c10-honest-{cv}-base, key a1024, x={}, label={})", xhex::<G>(&x), hx(&label)));
+    }
+
+    // ---------------------------------------------------------------- 2. context substitutions
+    let g = G::generator();
+    let other_q: Vec<(&str, G)> = vec![("Q+G", h.q + g), ("2Q", h.q + h.q), ("identity", G::identity()), ("-Q", -h.q), ("G", g)];
+    for (name, q2) in other_q {
+        let c2 = Ctx::<G> { q: q2, label: &label, pk: "a1024", sk: "a1024" };
+        eval(rep, m, &format!("context-point:{name}"), &h.bytes, &c2, true, &Expect::Reject, log);
+    }
+    let mut labels2: Vec<(&str, Vec<u8>)> = vec![("empty", vec![]), ("extended", [&label[..], &[0u8]].concat()),
+        ("truncated", label[..label.len() - 1].to_vec()), ("bitflip", { let mut l = label.clone(); l[0] ^= 1; l })];
+    if thorough { labels2.push(("long", vec![7u8; 1024])); }
+    for (name, l2) in &labels2 {
+        let c2 = Ctx::<G> { q: h.q, label: l2, pk: "a1024", sk: "a1024" };
+        eval(rep, m, &format!("context-label:{name}"), &h.bytes, &c2, true, &Expect::Reject, log);
+    }
+    // verification under another RSA key; decryption with another private key
+    let c2 = Ctx::<G> { q: h.q, label: &label, pk: "b1024", sk: "a1024" };
+    eval(rep, m, "context-key:verify-under-b", &h.bytes, &c2, true, &Expect::Reject, log);
+    let c2 = Ctx::<G> { q: h.q, label: &label, pk: "a1024", sk: "b1024" };
+    let (_, _, d) = eval(rep, m, "context-key:decrypt-with-b", &h.bytes, &c2, true, &Expect::Any, log);
+    if d.starts_with("V ") {
+        rep.oracle.push(format!("decryption with a foreign private key returned a value: {d} (curve={cv})"));
+    }
+    // re-framing: a 129-slot proof for label L presented as a 128-slot proof for label (slot 128 bytes ++ L):
+    // the challenge input is byte-identical, only the label-bound RSA plaintexts differ
+    let h129 = honest::<G>(seed, "p129", keys, "a1024", x, &label, Some(129), 0);
+    let w = parse_wire(&h129.bytes);
+    let mut w2 = w.clone();
+    let last = w2.slots.pop().unwrap();
+    w2.scalars.pop();
+    w2.sp = 128;
+    let l2 = [&last.g_r[..], &last.enc_x_r[..], &last.enc_r[..], &label[..]].concat();
+    assert_eq!(challenge_of(&qb, &w.slots, &label), challenge_of(&qb, &w2.slots, &l2));
+    let c2 = Ctx::<G> { q: h.q, label: &l2, pk: "a1024", sk: "a1024" };
+    eval(rep, m, "context-label:reframed-129-as-128", &build_wire(&w2), &c2, true, &Expect::Reject, log);
+    let c3 = Ctx::<G> { q: h.q, label: &label, pk: "a1024", sk: "a1024" };
+    eval(rep, m, "honest:sp129", &h129.bytes, &c3, true, &acc, log);
+
+    // ---------------------------------------------------------------- 3. adversarial provers
+    let pk = keys.pk("a1024");
+    let n_adv = if thorough { 12 } else { 1 };
+    // garbage kinds for an unopened ciphertext
+    let garbage = |kind: usize, r: &mut ChaCha20Rng, i: usize| -> Vec<u8> {
+        match kind % 6 {
+            0 => { let mut g = vec![0u8; enc]; r.fill_bytes(&mut g); g[0] = 0; g }                 // < n, bad padding
+            1 => vec![0xffu8; enc],                                                                  // >= n
+            2 => enc_int(&big_of_sc::<G>(&(h.rs[i] + G::Scalar::ONE)).clone(), &label, pk, h.seed).unwrap(),   // valid encryption of a wrong integer
+            3 => enc_int(&(BigUint::from(1u8) << 256usize), &label, pk, h.seed).unwrap(),         // 33-byte plaintext
+            4 => enc_int(&BigUint::from_bytes_be(&[0xffu8; 32]), &label, pk, h.seed).unwrap(),    // 32 bytes, not canonical
+            _ => vec![0u8; enc],                                                                     // zero
+        }
+    };
+    // (a) k corrupted slots; grind the garbage until all corrupted sides stay unopened
+    let ks: Vec<usize> = if thorough { (1..=8).chain([10, 12]).collect() } else { vec![1, 2, 3, 4, 5, 6, 7, 8] };
+    for rep_i in 0..n_adv {
+        for &k in &ks {
+            let mut failing_done = false;
+            let mut tries = 0usize;
+            loop {
+                tries += 1;
+                let mut w = w0.clone();
+                // slot 0 is always among the corrupted ones (the first slot decrypt looks at)
+                let mut idx: Vec<usize> = vec![0];
+                while idx.len() < k {
+                    let i = (r.next_u32() % 128) as usize;
+                    if !idx.contains(&i) { idx.push(i); }
+                }
+                let sides: Vec<bool> = idx.iter().map(|_| r.next_u32() & 1 == 1).collect();   // true: corrupt enc_x_r
+                for (j, &i) in idx.iter().enumerate() {
+                    let gb = garbage(tries + j + rep_i, &mut r, i);
+                    if sides[j] { w.slots[i].enc_x_r = gb } else { w.slots[i].enc_r = gb }
+                }
+                let ch = reopen::<G>(&mut w, &h, &qb, &label);
+                // the corrupted side stays unopened iff the challenge bit selects the other side
+                let pass = idx.iter().zip(&sides).all(|(&i, &sx)| bit(&ch, i) != sx);
+                if pass {
+                    eval(rep, m, &format!("adv-garbage-unopened:k={k}:tries={tries}"), &build_wire(&w), &ctx, true, &acc, log);
+                    break;
+                } else if !failing_done {
+                    failing_done = true;
+                    eval(rep, m, &format!("adv-garbage-opened:k={k}"), &build_wire(&w), &ctx, k <= 2 || thorough, &Expect::Reject, log);
+                }
+                if tries > (1 << (k + 6)) { break; }
+            }
+        }
+    }
+    // (b) all but one slot corrupted on the side that an honest challenge leaves unopened cannot be ground; 128 corrupted
+    //     slots with openings re-derived: rejected
+    {
+        let mut w = w0.clone();
+        for i in 0..128 { w.slots[i].enc_r = garbage(i, &mut r, i); }
+        reopen::<G>(&mut w, &h, &qb, &label);
+        eval(rep, m, "adv-all-enc_r-garbage", &build_wire(&w), &ctx, true, &Expect::Reject, log);
+    }
+    for j in [0usize, 1, 77, 127] {
+        // (c) wrong commitment (r+1)G, opened honestly / opened to match the commitment
+        let mut w = w0.clone();
+        w.slots[j].g_r = (g * (h.rs[j] + G::Scalar::ONE)).to_bytes().as_ref().to_vec();
+        let ch = reopen::<G>(&mut w, &h, &qb, &label);
+        eval(rep, m, &format!("adv-wrong-commitment:slot={j}:open=honest"), &build_wire(&w), &ctx, j < 2, &Expect::Reject, log);
+        let s = if bit(&ch, j) { h.x + h.rs[j] + G::Scalar::ONE } else { h.rs[j] + G::Scalar::ONE };
+        w.scalars[j] = repr_bytes::<G>(&s);
+        eval(rep, m, &format!("adv-wrong-commitment:slot={j}:open=matching"), &build_wire(&w), &ctx, j < 2, &Expect::Reject, log);
+        // (d) wrong-side opening
+        let mut w = w0.clone();
+        let ch = challenge_of(&qb, &w.slots, &label);
+        let s = if bit(&ch, j) { h.rs[j] } else { h.x + h.rs[j] };
+        w.scalars[j] = repr_bytes::<G>(&s);
+        eval(rep, m, &format!("adv-wrong-side-opening:slot={j}"), &build_wire(&w), &ctx, j < 2, &Expect::Reject, log);
+        // (e) the two ciphertexts of a slot swapped, openings re-derived
+        let mut w = w0.clone();
+        let sl = &mut w.slots[j];
+        std::mem::swap(&mut sl.enc_r, &mut sl.enc_x_r);
+        reopen::<G>(&mut w, &h, &qb, &label);
+        eval(rep, m, &format!("adv-swapped-ciphertexts:slot={j}"), &build_wire(&w), &ctx, j < 1, &Expect::Reject, log);
+        // (f) undecodable commitment
+        let mut w = w0.clone();
+        w.slots[j].g_r = if G::BE { let mut b = w.slots[j].g_r.clone(); b[0] = 5; b } else { let mut b = vec![0u8; 32]; b[0] = 2; b };
+        let undec = pt_of_bytes::<G>(&w.slots[j].g_r).is_none();
+        reopen::<G>(&mut w, &h, &qb, &label);
+        eval(rep, m, &format!("adv-bad-point:slot={j}:undecodable={undec}"), &build_wire(&w), &ctx, j < 2, &Expect::Reject, log);
+        // (g) non-canonical opened scalar: from_bytes must refuse
+        let mut w = w0.clone();
+        w.scalars[j] = if G::BE { G::order().to_bytes_be() } else { G::order().to_bytes_le() };
+        eval(rep, m, &format!("adv-noncanonical-scalar:slot={j}"), &build_wire(&w), &ctx, true, &Expect::Reject, log);
+    }
+    // (h) ciphertexts for another secret x' under the claimed Q = x*G
+    {
+        let x2 = h.x + G::Scalar::ONE;
+        let h2 = honest::<G>(seed, "otherx", keys, "a1024", x2, &label, None, 0);
+        let mut w = parse_wire(&h2.bytes);
+        // openings re-derived for the claimed point
+        let ch = challenge_of(&qb, &w.slots, &label);
+        for i in 0..128 {
+            let s = if bit(&ch, i) { x2 + h2.rs[i] } else { h2.rs[i] };
+            w.scalars[i] = repr_bytes::<G>(&s);
+        }
+        eval(rep, m, "adv-other-secret", &build_wire(&w), &ctx, true, &Expect::Reject, log);
+    }
+    // (i) short nonces (every nonce has leading zero repr bytes): accepted and decrypts
+    for z in [1usize, 2] {
+        let hz = honest::<G>(seed, &format!("short{z}"), keys, "a1024", x, &label, None, z);
+        eval(rep, m, &format!("adv-short-nonces:zeros={z}"), &hz.bytes, &ctx, true, &acc, log);
+    }
+    // (j) x = 0: both ciphertexts of a slot coincide, alterations of the unopened side may be accepted;
+    //     only soundness and model agreement are demanded
+    {
+        let h0 = honest::<G>(seed, "zero", keys, "a1024", G::Scalar::ZERO, &label, None, 0);
+        let c0 = Ctx::<G> { q: h0.q, label: &label, pk: "a1024", sk: "a1024" };
+        eval(rep, m, "honest:x=0", &h0.bytes, &c0, true, &Expect::Accept("0".into()), log);
+        let w = parse_wire(&h0.bytes);
+        for t in 0..(if thorough { 24 } else { 6 }) {
+            let mut w2 = w.clone();
+            let i = t % 3;
+            if t % 2 == 0 { w2.slots[i].enc_r = garbage(t, &mut r, i) } else { w2.slots[i].enc_x_r = garbage(t, &mut r, i) }
+            // the opened scalars of the honest proof stay valid for either side when x = 0
+            eval(rep, m, &format!("adv-zero-secret-garbage:slot={i}:try={t}"), &build_wire(&w2), &c0, true, &Expect::Any, log);
+        }
+    }
+    // (k) framing: truncated / extended data, header changes
+    {
+        let b = &h.bytes;
+        let mut variants: Vec<(&str, Vec<u8>)> = vec![
+            ("empty", vec![]), ("39-bytes", b[..39].to_vec()), ("40-bytes", b[..40].to_vec()),
+            ("minus-1", b[..b.len() - 1].to_vec()), ("plus-1", [&b[..], &[0u8]].concat()),
+            ("plus-slot", [&b[..], &vec![0u8; slot_size + 32][..]].concat()),
+            ("minus-slot", b[..b.len() - slot_size - 32].to_vec()),
+        ];
+        for (name, o, v) in [("sp=129", 32usize, 129u16), ("sp=127", 32, 127), ("sp=257", 32, 257), ("sp=0", 32, 0),
+                             ("psize+1", 34, psize as u16 + 1), ("enc-1", 36, enc as u16 - 1), ("enc=0", 36, 0), ("scalar=31", 38, 31)] {
+            let mut c = b.clone();
+            c[o..o + 2].copy_from_slice(&v.to_be_bytes());
+            variants.push((name, c));
+        }
+        // 256 and 257 slots announced with consistent lengths (F3: 257 must be refused, 256 parses)
+        for sp in [256usize, 257] {
+            let mut w = w0.clone();
+            w.sp = sp;
+            while w.slots.len() < sp { let k = w.slots.len() % 128; w.slots.push(w0.slots[k].clone()); w.scalars.push(w0.scalars[k].clone()); }
+            variants.push((if sp == 256 { "256-slots-repeated" } else { "257-slots-repeated" }, build_wire(&w)));
+        }
+        for (name, v) in variants {
+            eval(rep, m, &format!("framing:{name}"), &v, &ctx, true, &Expect::Reject, log);
+        }
+    }
+    if thorough {
+        // RSA-2048 as well: honest, one ground garbage slot, a few alterations
+        let h2 = honest::<G>(seed, "k2048", keys, "a2048", x, &label, Some(130), 0);
+        let c2 = Ctx::<G> { q: h2.q, label: &label, pk: "a2048", sk: "a2048" };
+        eval(rep, m, "honest:rsa2048", &h2.bytes, &c2, true, &acc, log);
+        for t in 0..40 {
+            let mut b = h2.bytes.clone();
+            let pos = r.next_u32() as usize % b.len();
+            b[pos] = b[pos].wrapping_add(1 + (r.next_u32() % 255) as u8);
+            eval(rep, m, &format!("alter-rsa2048:pos={pos}:t={t}"), &b, &c2, t % 4 == 0, &Expect::Reject, log);
+        }
+    }
+    if rep.samples.len() < 6 {
+        rep.samples.push(format!("curve={cv}: base proof {} bytes (x={}, label={}), {} byte alterations ({} through the model)",
+            h.bytes.len(), xhex::<G>(&x), hx(&label), positions.len() * 2, budget.values().sum::<usize>()));
+    }
+}
+
+pub fn run(kv: &Args) -> i32 {
+    let seed = kv.u64("seed", 1);
+    let out = kv.str("out", "/verif/build/run/C10");
+    std::fs::create_dir_all(&out).unwrap();
+    let _ = REP_DIR.set(out.clone());
+    quiet_panics();
+    let thorough = kv.thorough();
+    let ids: Vec<&str> = if thorough { vec!["a1024", "b1024", "a2048"] } else { vec!["a1024", "b1024"] };
+    let keys = Keys::generate(seed, &ids);
+    let mut m = Model::new(&keys);
+    let mut rep = Report::default();
+    let mut log = std::fs::File::create(format!("{out}/cases.txt")).unwrap();
+    run_curve::<k256::ProjectivePoint>(seed, thorough, &keys, &mut m, &mut rep, &mut log);
+    run_curve::<EdwardsPoint>(seed, thorough, &keys, &mut m, &mut rep, &mut log);
+    rep.write(&out, m.drv.queries);
+    0
 }
